@@ -259,6 +259,7 @@ type Job struct {
 	Universe []string `json:"universe"`
 	Detail   bool     `json:"detail"` // record strings found and links per file
 	Taint    string   `json:"taint"`
+	GoMax    int      `json:"gomax"` // GOMAXPROCS of the child (0 = 4)
 	First    string   `json:"first"` // the decoded document is first published with this visibility, then as asked (same *Document)
 }
 
@@ -570,7 +571,11 @@ func spawn(job Job, race bool) Run {
 	cmd.Stdin = bytes.NewReader(in)
 	var out, errb bytes.Buffer
 	cmd.Stdout, cmd.Stderr = &out, &errb
-	cmd.Env = append(os.Environ(), "GORACE=halt_on_error=0 exitcode=0", "GOMAXPROCS=4")
+	gomax := job.GoMax
+	if gomax == 0 {
+		gomax = 4
+	}
+	cmd.Env = append(os.Environ(), "GORACE=halt_on_error=0 exitcode=0", "GOMAXPROCS="+strconv.Itoa(gomax))
 	done := make(chan error, 1)
 	if err := cmd.Start(); err != nil {
 		return Run{Died: "cannot start child: " + err.Error(), Files: []FileObs{}, Races: [][]string{}}
@@ -655,8 +660,9 @@ func observe(c Case) Obs {
 			jobs = []int{1}
 		}
 		add("ref", Job{Mode: "site", Texts: []string{text}, Opts: c.Opts, Jobs: jobs[0], Universe: uni, Detail: true}, false)
-		for _, j := range jobs[1:] {
-			add("jobs"+strconv.Itoa(j), Job{Mode: "site", Texts: []string{text}, Opts: c.Opts, Jobs: j}, false)
+		for k, j := range jobs[1:] {
+			// more workers than processors, fewer, and as many
+			add("jobs"+strconv.Itoa(j), Job{Mode: "site", Texts: []string{text}, Opts: c.Opts, Jobs: j, GoMax: []int{1, 16, 2}[(k+j)%3]}, false)
 		}
 		add("again", Job{Mode: "site", Texts: []string{text}, Opts: c.Opts, Jobs: jobs[0]}, false)
 		if o := c.Opts; !(o.Individuals && o.Places && o.Families && o.Surnames && o.Sources && o.Statistics) {
